@@ -332,6 +332,11 @@ def report(prop, args, units, results, known, seed, t0, scratch):
         for ob in r['failures']:
             if ob['function'] not in u.expected:
                 continue
+            if prop not in getattr(u, 'fn_props', {}).get(ob['function'], u.props):
+                # the unit serves several properties; this function carries another one
+                print('NOTE property=%s obligation %s failed but belongs to %s' % (
+                    prop, ob['id'], ','.join(u.fn_props[ob['function']])))
+                continue
             k = matches_known(prop, u, ob, known)
             if k:
                 knowns.append((ob, k))
@@ -417,6 +422,8 @@ def write_evidence(prop, args, units, results, violations, knowns, undecided, se
         smt_ms += r.get('smt_ms', 0)
         cmds.append(r.get('checker_cmd', ''))
         for it in r.get('items', []):
+            if prop not in getattr(u, 'fn_props', {}).get(it['key'], u.props):
+                continue
             if it.get('contract') or it.get('lifted'):
                 functions.append(dict(unit=r['unit'], function=it['key'], file=it['file'],
                                       lines=[it['line_start'], it['line_end']], sha256=it['sha256'],
